@@ -293,6 +293,56 @@ def fraction_attr(kind, op, tag, diag):
     return ["C17"] if kind == "FrFromFloat" else ["C16"]
 
 
+# ---------------------------------------------------------------------------------------------
+# text family (C13 buffer discipline, C14 text denotes value)
+
+TEXT_CORE = ["text_scaled<SI<i8,-4>>", "text_scaled<SI<i32,-30>>", "text_scaled<SI<i16,-2,10>>", "text_scaled<SI<u8,3>>",
+             "text_scaled<SI<i8,-70>>", "text_scaled<SI<u16,70>>", "text_scaled<SI<i64,-60>>", "text_scaled<SI<i32,0>>",
+             "text_scaled<SI<u8,-3,3>>", "text_scaled<SI<i16,2,8>>", "text_scaled<SI<i8,5,10>>", "text_scaled<SI<u64,-64>>",
+             "text_scaled<SI<i16,-16>>", "text_scaled<SI<cnl::elastic_integer<24>,-10>>", "text_scaled<SI<i32,20>>",
+             "text_integer<i8>", "text_integer<u8>", "text_integer<i16>", "text_integer<i32>", "text_integer<u32>",
+             "text_integer<i64>", "text_integer<u64>", "text_integer<cnl::int128_t>", "text_integer<cnl::uint128_t>",
+             "text_integer<cnl::elastic_integer<20>>"]
+
+
+def text_jobs(tier):
+    import random
+    rnd = random.Random(vlib.seed() * 31337 + 3)
+    reps = ["i8", "u8", "i16", "u16", "i32", "u32", "i64", "u64"]
+    items = list(TEXT_CORE)
+    for _ in range(14 if tier == "quick" else 160):
+        rx = rnd.choice([2, 2, 2, 10, 10, 3, 8])
+        e = rnd.randint(-70, 70) if rx == 2 else rnd.randint(-20, 20)
+        items.append("text_scaled<SI<%s,%d,%d>>" % (rnd.choice(reps), e, rx))
+    items = sorted(set(items))
+    lines = ["%s(out, gb, %d);" % (it, k + 1) for k, it in enumerate(items)]
+    nfiles = vlib.NCPU if tier == "quick" else 2 * vlib.NCPU
+    jobs = []
+    for k in range(nfiles):
+        body = "\n".join(lines[k::nfiles]) + "\n"
+        if not body.strip():
+            continue
+        p = os.path.join(vlib.BUILD, "gen", "text-inst-%s.inc" % vlib.sha(body))
+        os.makedirs(os.path.dirname(p), exist_ok=True)
+        if not os.path.exists(p):
+            with open(p + ".tmp", "w") as f:
+                f.write(body)
+            os.replace(p + ".tmp", p)
+        jobs.append(dict(src="h_text.cpp", cc="gcc", tag="text-gcc-%d" % k, defines=['VERIF_INST_FILE="%s"' % p]))
+        if tier == "thorough" or (k + vlib.seed()) % 4 == 0:
+            jobs.append(dict(src="h_text.cpp", cc="clang", tag="text-clang-%d" % k, defines=['VERIF_INST_FILE="%s"' % p]))
+    return jobs
+
+
+def text_attr(kind, op, tag, diag):
+    if diag is None:
+        return ["C13", "C14"]
+    if diag in ("ub", "timeout", "unreachable", "wrote_before_first", "bad_shape", "not_exactly_first_to_p",
+                "static_capacity_too_small"):
+        return ["C13"]
+    return ["C14"]
+
+
 def wide_jobs(tier):
     sets = [0, 1, 2, 3] if tier == "quick" else [0, 1, 2, 3, 4]
     jobs = [dict(src="h_wide.cpp", cc="gcc", tag="wide-gcc-%d" % k, defines=["WIDE_SET=%d" % k]) for k in sets]
@@ -301,6 +351,7 @@ def wide_jobs(tier):
 
 
 FAMILIES = {
+    "text": dict(jobs=text_jobs, attr=text_attr, record_timeout=1800),
     "wide": dict(jobs=wide_jobs, attr=lambda kind, op, tag, diag: ["C10"], record_timeout=1800),
     "fraction": dict(jobs=simple_jobs("h_fraction.cpp", "fraction"), attr=fraction_attr),
     "sqrt": dict(jobs=simple_jobs("h_sqrt.cpp", "sqrt"), attr=lambda kind, op, tag, diag: ["C19"]),
@@ -430,6 +481,28 @@ CHECKS = {
                "operator~ and mixed-width operators do not compile for multi-limb wide_integer and are not exercised; the "
                "number of operand pairs per type is bounded (BigInt judging of 2048-bit quotients is slow); comparisons of "
                "wide_integer (C03's clause) are judged here"),
+    "C13": chk(["text"], [],
+               "events = cnl::to_chars(first, first+cap, v) for scaled_integer (radix 2/3/8/10, exponents -70..70, reps 8..64 "
+               "bit, core list + VERIF_SEED sample) and integers (8..128 bit, elastic; bases 2/8/10/16/36) x all values of 8-bit "
+               "reps (16-bit in thorough), boundary/random values of wider reps x buffer lengths 0..capacity+2; the buffer ends "
+               "at a PROT_NONE page and is preceded by 64 canary bytes, each call runs twice with different fill patterns; plus "
+               "to_chars_static / to_string / operator<< per value; 0.3 s watchdog; non-trivial = short buffer or negative value",
+               "TLA+ spec (SemText.BufferDiag: result shape, failure shape, no write outside [first,p)) evaluated by TLC on "
+               "every recorded call (trace validation); out-of-buffer writes are observed by a guard page and canaries",
+               "on success first < p <= last, errc{} and exactly [first,p) written; on failure value_too_large with p == last; no "
+               "byte outside [first,last) touched; no trap, assertion or hang; static variants always succeed and print the "
+               "same text.",
+               "reads outside the buffer are not observed; the as-coded layout solver is not yet model-checked separately"),
+    "C14": chk(["text"], [],
+               "same recorded calls as C13 (those that succeeded); the bytes are tokenised as -?d*(.d*)?(e-?d+)? (scaled) or a "
+               "numeral in the requested base (integers); non-trivial = short buffer or negative value",
+               "TLA+ spec (SemText: tokeniser, Horner evaluation, comparison of text and value by cross-multiplying powers of "
+               "10 and of the radix over unbounded integers) evaluated by TLC on every recorded text (trace validation)",
+               "integers: canonical numeral of exactly the value; scaled_integer: same sign, text <= |value|, |value| - text < "
+               "one unit of the last printed digit + (|e|+2)e-18*|value| (64-bit significand limit, reading decision), exact "
+               "when the expansion has <= 18 significant digits and the buffer has the static capacity; to_string, "
+               "to_chars_static and operator<< equal to_chars.",
+               "exactness is only demanded at full capacity (deciding 'fits the buffer' for shorter buffers is not modelled)"),
     "C16": chk(["fraction"], [],
                "events = +,-,*,/ , unary -/+, the six comparisons, reduce, canonical, std::hash on pairs (n,d)/(k*n,k*d), and "
                "explicit conversion to float/double on cnl::fraction<T>, T = int8..int64; unary operations over every 8-bit "
